@@ -15,7 +15,7 @@ import vlib, evalgen, evalcheck
 
 IMPORTS = "From YQ Require Import Base.Str Model.Node Spec.MergeSpec."
 FLAG_CHARS = "+d?n"          # bit 0..3, as Spec/MergeSpec.v flags_of
-KEYS = ["a", "b", "c", "d", "e", "k1", "0", "1", "x y"]
+KEYS = ["a", "b", "c", "d", "e", "k1", "0", "1", "x y", "a*", "?", "*"]    # * and ? are ordinary characters in a merged key
 SCALARS = [0, 1, 2, -1, 7, 100, "", "a", "cat", "xé", None, None, True, False, 1.5, -0.25]
 
 
@@ -228,10 +228,6 @@ def is_wild(k):
     return "*" in k or "?" in k
 
 
-def coq_entries(d):
-    return "[%s]" % ";".join("(%s, %s)" % (vlib.coq_str(k), evalgen.coq_node(v)) for k, v in d.items())
-
-
 # ------------------------------------------------------------------ the check
 def run(chk):
     thorough = chk.tier == "thorough"
@@ -404,8 +400,7 @@ def run(chk):
     # ---- recorded findings: exact inputs, still reproducing?
     probes = impl_batch([(".a *+d .b", pair_doc({"k": [1, 2]}, {"k": [3]}), False),
                          (".a *+d .b", pair_doc({}, {"k": [[1]]}), False),
-                         (".a *n .b", pair_doc({"k": None}, {"k": 5}), False),
-                         (".a * .b", pair_doc({"ab": 1, "ac": 2}, {"a*": 3}), False)])
+                         (".a *n .b", pair_doc({"k": None}, {"k": 5}), False)])
     # repaired (fixed: in KNOWN_FINDINGS.txt): `+d` used to append and then also assign b's items by position
     for j, (dj, wj) in enumerate((({"a": {"k": [1, 2]}, "b": {"k": [3]}}, {"k": [1, 2, 3]}), ({"a": {}, "b": {"k": [[1]]}}, {"k": [[1]]}))):
         if probes[j] != ok_bytes(wj):
@@ -414,7 +409,7 @@ def run(chk):
     if probes[2] == ok_bytes({"k": 5}) and not null_hits:
         chk.known_finding("only-new-overwrites-null", '{"a":{"k":null},"b":{"k":5}} | .a *n .b -> {"k":5}')
 
-    # ---- keys of b are matched as glob patterns (flat maps of scalars, no flags)
+    # ---- keys are data (repaired, fixed: in KNOWN_FINDINGS.txt: keys of b used to be matched as glob patterns): flat maps, literal merge
     nw = 1500 if thorough else 300
     wcases = [({"ab": 1, "ac": 2}, {"a*": 3}), ({"ab": 1, "ac": 2}, {"*": 0}), ({"a*": 1, "ab": 2}, {"a*": 3}), ({"ab": 1}, {"a?": 2, "a*": 3}),
               ({"a*": 1, "ab": 2, "ac": 3}, {"a?": 9, "ab": 8})]
@@ -422,51 +417,33 @@ def run(chk):
         a = {k: rng.choice([1, 2, 3, "s", None]) for k in rng.sample(WILD_KEYS, rng.choice([1, 2, 3, 4]))}
         b = {k: rng.choice([7, 8, "t", None, True]) for k in rng.sample(WILD_KEYS, rng.choice([1, 2, 3]))}
         wcases.append((a, b))
-    wout = impl_batch([(".a * .b", pair_doc(a, b), False) for a, b in wcases])
+    wout = impl_batch([(".a * .b", pair_doc(a, b), False) for a, b in wcases] + [(".a *= .b | .a", pair_doc(a, b), False) for a, b in wcases])
     lit = [ok_bytes(literal_flat_merge(a, b)) for a, b in wcases]
-    dev = [i for i in range(len(wcases)) if wout[i] != lit[i]]
-    wmm, werr = vlib.coq_mismatches(chk.workdir, "c04_wild", IMPORTS, "(fun c => wild_run (fst c) (snd c))",
-                                    [("(%s, %s)" % (coq_entries(a), coq_entries(b)), wout[i]) for i, (a, b) in enumerate(wcases)], shard=300)
-    if werr:
-        broken.append("spec evaluation (wildcard model) failed: " + werr[-600:])
-        wmm = []
-    wbad = dict(wmm)
-    n_wild_dev = 0
+    dev = [i for i in range(len(wcases)) if wout[i] != lit[i] or wout[len(wcases) + i] != lit[i]]
     for i, (a, b) in enumerate(wcases):
-        anyw = any(is_wild(k) for k in b)
-        chk.count(("wild", json.dumps([a, b])), nontrivial=anyw)
-        if i not in dev:
-            continue
-        doc = {"a": a, "b": b}
-        if not anyw:
-            violate({"kind": "eval", "expr": ".a * .b", "doc": doc, "impl": wout[i].decode("utf-8", "replace"), "expect": lit[i].decode("utf-8", "replace")},
-                    "flat merge without pattern characters differs from the literal merge")
-        elif i in wbad or not chk.is_known("wildcard-key"):
-            violate({"kind": "eval", "expr": ".a * .b", "doc": doc, "impl": wout[i].decode("utf-8", "replace"), "expect": lit[i].decode("utf-8", "replace")},
-                    "a key of b containing * or ? is not merged literally" + (" (and not as wild_flat models it either)" if i in wbad else ""))
-        else:
-            n_wild_dev += 1
-    if n_wild_dev:
-        i = min(dev, key=lambda i: len(json.dumps(wcases[i])))
-        chk.known_finding("wildcard-key", "%d of %d flat cases, e.g. %s | .a * .b -> %s" % (n_wild_dev, len(wcases), pair_doc(*wcases[i]), wout[i][3:].decode("utf-8", "replace").strip()))
+        chk.count(("wild", json.dumps([a, b])), nontrivial=any(is_wild(k) for k in b))
+        if i in dev:
+            e, got = (".a * .b", wout[i]) if wout[i] != lit[i] else (".a *= .b | .a", wout[len(wcases) + i])
+            violate({"kind": "eval", "expr": e, "doc": {"a": a, "b": b}, "impl": got.decode("utf-8", "replace"), "expect": lit[i].decode("utf-8", "replace")},
+                    "flat merge differs from the literal merge (a key of b containing * or ? must be an ordinary key)")
 
     chk.extra["distribution"] = {
         "pairs": len(pairs), "pair_cases(pairs x 16 flag sets)": len(cases), "defined_region": n_defined, "open_region_skipped": n_open,
         "impl_error_in_defined_region": n_err_defined, "per_flagset": per_flag, "identity_law_instances": len(imeta),
         "reduce_cases(sequences x 16)": len(rcases), "reduce_open_skipped": n_ropen, "wildcard_flat_cases": len(wcases),
-        "wildcard_cases_deviating_from_literal_merge": len(dev), "impl_outcomes": evalcheck.outcome_stats(impl)}
+        "pattern_key_cases_deviating_from_literal_merge": len(dev), "impl_outcomes": evalcheck.outcome_stats(impl)}
     if broken and not chk.violations:
         chk.violation({"kind": "obligation", "broken": broken}, False, "; ".join(broken)[:600])
     return chk.finish(
-        checker_cmd="make -C coq Props/C04.vo + coqc work/C04/c04_{pairs,reduce,wild}_*.v (vm_compute)",
+        checker_cmd="make -C coq Props/C04.vo + coqc work/C04/c04_{pairs,reduce}_*.v (vm_compute)",
         rule="seeded pairs of nested JSON maps (b derived from a by kind-preserving edits, new / dropped / reordered keys, resized sequences; 30% with kind "
              "conflicts; 20% independent; hand-written corner cases) x all 16 subsets of {+ d ? n}: `.a *F .b` vs Spec/MergeSpec.v merge (open region counted and "
              "skipped); operands-untouched / repeatability / overwrite-the-result probes on every case; key order, `?`, `n` oracles; x*{} / {}*x / x*x laws; "
              "document sequences x 16 flag sets through `. as $i ireduce ({}; . *F $i)` (all-at-once evaluator) vs merge_all and vs the implementation's own "
-             "iterated binary merge; flat maps with pattern keys vs wild_flat; non-trivial = defined-region merge whose result differs from a",
+             "iterated binary merge; flat maps whose keys contain * and ? vs the literal merge (`*` and `*=`); non-trivial = defined-region merge whose result differs from a",
         trusted=vlib.COMMON_TRUSTED + ["Spec/MergeSpec.v hand-written from operator_multiply.go (mergeObjects / applyAssignment), operator_assign.go, operator_add.go, "
                                        "operator_traverse_path.go; it is the reference the theorems are about"],
-        assumptions=["alias-free JSON-model documents with unique keys, plain tags, no comments/styles/anchors; keys of b free of * and ? (else: recorded finding)",
+        assumptions=["alias-free JSON-model documents with unique keys, plain tags, no comments/styles/anchors",
                      "operands reached as .a / .b of one document or as documents of a stream (well-keyed: recorded paths equal positions)"])
 
 
